@@ -183,7 +183,10 @@ CaseOk(c) == c.kind # "alter" \/ Applicable(EA[c.pos], <<c.field, c.variant>>)
 \* that replay accepts (outputs, diagnostic digests).
 TwinA(fv) == [j \in 1..Len(EA) |-> Alter(EA[j], fv)]
 CkptCases == {[kind |-> "ckpt", pos |-> p, field |-> "", variant |-> v] :
-                 p \in 1..Len(EA), v \in {"honest", "hash_flip", "tick_plus1", "tick_minus1", "state_sibling", "state_lm_twin", "state_plan_twin"}}
+                 p \in 1..Len(EA), v \in {"honest", "hash_flip", "tick_plus1", "tick_minus1", "state_sibling", "state_lm_twin", "state_plan_twin",
+                                   \* served by a store that never ran add_checkpoint (foreign ProvenanceStore): honest (tick, state hash),
+                                   \* materialized state swapped for the sibling's / the previous tick's
+                                   "served_state_sibling", "served_state_prev_tick"}}
 CkptOf(c) ==
   LET t == c.pos
       honest == [tick |-> t, root |-> RootOf(OrigAt(t).st), mat |-> OrigAt(t)]
@@ -192,6 +195,8 @@ CkptOf(c) ==
        [] c.variant = "tick_plus1" -> [honest EXCEPT !.tick = t + 1]          \* claims the next tick with this state
        [] c.variant = "tick_minus1" -> [honest EXCEPT !.tick = t - 1]
        [] c.variant = "state_sibling" -> LET m == AdvanceSeq(EF, MatU0, 0, t).mat IN [tick |-> t, root |-> RootOf(m.st), mat |-> m]
+       [] c.variant = "served_state_sibling" -> [honest EXCEPT !.mat = AdvanceSeq(EF, MatU0, 0, t).mat]
+       [] c.variant = "served_state_prev_tick" -> [honest EXCEPT !.mat = OrigAt(t - 1)]
        [] c.variant = "state_lm_twin" -> LET m == AdvanceSeq(TwinA(<<"outputs", "add">>), MatU0, 0, t).mat IN [tick |-> t, root |-> RootOf(m.st), mat |-> m]
        [] c.variant = "state_plan_twin" -> LET m == AdvanceSeq(TwinA(<<"patch.plan", "alter">>), MatU0, 0, t).mat IN [tick |-> t, root |-> RootOf(m.st), mat |-> m]
 
@@ -212,8 +217,9 @@ CkptVerdictIn(es, ck) ==
 Prediction(c) ==
   IF c.kind = "ckpt"
   THEN LET ck == CkptOf(c)
-           v == CkptVerdictIn(EA, ck)
-           cks == [NoCk EXCEPT ![A] = IF v = "ok" THEN {ck} ELSE {}]
+           served == c.variant \in {"served_state_sibling", "served_state_prev_tick"}
+           v == IF served THEN "served" ELSE CkptVerdictIn(EA, ck)
+           cks == [NoCk EXCEPT ![A] = IF v \in {"ok", "served"} THEN {ck} ELSE {}]
            es == [x \in {A, F, B} |-> IF x = A THEN EA ELSE Others[x]]
        IN [rebuild |-> v, at |-> ck.tick,
            ticks |-> [t \in 1..(Len(EA) + 1) |-> Classify(ReplayIn(es, cks, A, t - 1), OrigAt(t - 1))]]
